@@ -331,6 +331,7 @@ def ctl_extra(tier, seed):
             hl, pl = r.choice([6, 6, 6, 8, 0]), r.choice([4, 4, 16, 0])
             a = [0, r.choice([1, 1, 6]), r.choice([8, 8, 0x86]), r.choice([0, 0, 0xdd]), hl, pl, 0, r.randrange(1, 5)] + [r.randrange(256) for _ in range(2 * hl + 2 * pl + r.choice([0, 0, 3]))]
             out.append({'kind': 'arp', 'bytes': a})
+    out.append({'kind': 'codes', 'bytes': []})        # code tables of the typed messages (from_u8 / from_values / code_u8)
     return out
 
 
